@@ -176,6 +176,15 @@ def cases(tier, seed):
     for N, R, orig in [([2, 2], [1, 2, 1], [4]), ([2, 2, 2], [1, 2, 2, 1], [4, 2]), ([2, 2, 2], [1, 2, 3, 1], [2, 4]), ([2, 2, 2], [1, 2, 2, 1], [8]),
                        ([2, 2, 2, 2], [1, 2, 2, 2, 1], [4, 4]), ([2, 2, 2], [1, 2, 2, 1], [2, 2, 2]), ([3, 3, 2], [1, 2, 2, 1], [9, 2])]:
         cs.append({'scen': 'tt_qtt_to_tens', 's': {'N': N, 'R': R, 'orig': orig}, 'opts': Z})
+    # single-precision dtypes (the factorizations must run in the operand's own field: complex64 stays complex)
+    for dt in ('complex64', 'float32'):
+        pp = pats_for([2, 3], [1, 2, 1], rng)
+        cs.append({'scen': 'tt_permute', 's': {'N': [2, 3], 'R': [1, 2, 1], 'patterns': pp, 'dims': [1, 0], 'dtype': dt, 'eps': 'default'}})
+        pm = pats_for([2, 2], [1, 2, 1], rng, M=[2, 1])
+        cs.append({'scen': 'tt_permute', 's': {'N': [2, 2], 'M': [2, 1], 'R': [1, 2, 1], 'patterns': pm, 'dims': [1, 0], 'dtype': dt, 'eps': 'default'}})
+        pr = pats_for([4, 2], [1, 2, 1], rng, target=[2, 2, 2])
+        cs.append({'scen': 'tt_reshape', 's': {'N': [4, 2], 'R': [1, 2, 1], 'patterns': pr, 'target': [2, 2, 2], 'dtype': dt, 'eps': 'default'}})
+        cs.append({'scen': 'tt_to_qtt', 's': {'N': [4, 2], 'R': [1, 2, 1], 'patterns': pr, 'dtype': dt, 'eps': 'default'}})
     # operators of order 4: permutations whose bubble-sort passes swap at positions that are not adjacent to the previous swap
     for M, N, R in [([2, 1, 1, 2], [1, 2, 2, 1], [1, 2, 2, 2, 1])]:
         for dims in ([0, 1, 3, 2], [0, 3, 1, 2], [3, 0, 1, 2], [1, 0, 3, 2], [1, 3, 0, 2], [3, 1, 0, 2]) if th else ([0, 1, 3, 2], [3, 0, 1, 2], [1, 0, 3, 2]):
